@@ -28,6 +28,10 @@ CPP_API = {
 def create_world_rule(P, rep, F, rule, handle_out_idx, data_idx, is_ctor=False):
     """new World(file, has_output_dir, output_dir, seed) receives the wrapper's arguments unchanged"""
     news = [n for n in F.walk() if n.get("k") == "CXXNewExpr" and "WorldBuilder::World" in n.get("alloc", "")]
+    for ini in (F.inits or []):        # a constructor may create the world in its member-initialiser list
+        for root in ini.get("c", []) or []:
+            if root is not None:
+                news += [n for n in F.walk(root) if n.get("k") == "CXXNewExpr" and "WorldBuilder::World" in n.get("alloc", "")]
     inst = "%s -> new World(...)" % F.qn
     if len(news) != 1:
         rep.violation(rule, inst, F.loc, F.qn, "%d new-expressions" % len(news), "not exactly one world is created", key="%s|%s|new" % (rule, F.qn))
